@@ -215,6 +215,161 @@ def _inline_condition_temps(tree):
                     i += 1
 
 
+def _split_auto_fields(text):
+    """pieces of a str.format template that uses only `{}` fields (doubled
+    braces are literal); None for anything else"""
+    pieces = ['']
+    i = 0
+    while i < len(text):
+        ch = text[i]
+        if ch == '{':
+            if text[i:i + 2] == '{{':
+                pieces[-1] += '{'
+                i += 2
+                continue
+            if text[i:i + 2] == '{}':
+                pieces.append('')
+                i += 2
+                continue
+            return None
+        if ch == '}':
+            if text[i:i + 2] == '}}':
+                pieces[-1] += '}'
+                i += 2
+                continue
+            return None
+        pieces[-1] += ch
+        i += 1
+    return pieces
+
+
+class _FormatToFString(ast.NodeTransformer):
+    """`"a {} b {}".format(x, y)` and `"a %s b %s" % (x, y)` are the
+    f-string f"a {x} b {y}": rules that read interpolations (dataset
+    names, column names, messages with paths) see one form"""
+
+    def _joined(self, pieces, args, node):
+        vals = []
+        for k, piece in enumerate(pieces):
+            if piece:
+                vals.append(ast.Constant(value=piece))
+            if k < len(args):
+                vals.append(ast.FormattedValue(
+                    value=args[k], conversion=-1, format_spec=None))
+        new = ast.JoinedStr(values=vals)
+        ast.copy_location(new, node)
+        for v in vals:
+            ast.copy_location(v, node)
+        return new
+
+    def visit_Call(self, node):
+        self.generic_visit(node)
+        f = node.func
+        if isinstance(f, ast.Attribute) and f.attr == 'format' \
+                and isinstance(f.value, ast.Constant) and isinstance(
+                    f.value.value, str) and not node.keywords \
+                and node.args and not any(
+                    isinstance(a, ast.Starred) for a in node.args):
+            pieces = _split_auto_fields(f.value.value)
+            if pieces is not None and len(pieces) == len(node.args) + 1:
+                return self._joined(pieces, node.args, node)
+        return node
+
+    def visit_BinOp(self, node):
+        self.generic_visit(node)
+        if isinstance(node.op, ast.Mod) and isinstance(
+                node.left, ast.Constant) and isinstance(
+                    node.left.value, str):
+            text = node.left.value
+            if '%' in text.replace('%s', ''):
+                return node
+            pieces = text.split('%s')
+            args = list(node.right.elts) if isinstance(
+                node.right, ast.Tuple) else [node.right]
+            if len(pieces) == len(args) + 1 and not any(
+                    isinstance(a, ast.Starred) for a in args) \
+                    and not isinstance(node.right, (ast.Dict, ast.Name)):
+                return self._joined(pieces, args, node)
+        return node
+
+
+def _merge_nested_ifs(tree):
+    """`if a:` whose whole body is `if b: X` (neither has an else) is
+    `if a and b: X`"""
+    for node in ast.walk(tree):
+        if isinstance(node, ast.If):
+            while not node.orelse and len(node.body) == 1 and isinstance(
+                    node.body[0], ast.If) and not node.body[0].orelse:
+                inner = node.body[0]
+                vals = []
+                for t in (node.test, inner.test):
+                    if isinstance(t, ast.BoolOp) and isinstance(
+                            t.op, ast.And):
+                        vals += t.values
+                    else:
+                        vals.append(t)
+                new = ast.BoolOp(op=ast.And(), values=vals)
+                ast.copy_location(new, node.test)
+                node.test = new
+                node.body = inner.body
+
+
+def _merge_unpack_temps(tree):
+    """`t = f(..); a = t[0]; b = t[1]` (adjacent statements, t a plain
+    local used nowhere else, the subscripts 0..n-1 in order) is
+    `a, b = f(..)`"""
+    for fn in ast.walk(tree):
+        if not isinstance(fn, (ast.FunctionDef, ast.AsyncFunctionDef)):
+            continue
+        counts = {}
+        for x in ast.walk(fn):
+            if isinstance(x, ast.Name):
+                counts[x.id] = counts.get(x.id, 0) + 1
+        for node in ast.walk(fn):
+            for field in ('body', 'orelse', 'finalbody'):
+                stmts = getattr(node, field, None)
+                if not (isinstance(stmts, list) and stmts
+                        and isinstance(stmts[0], ast.stmt)):
+                    continue
+                i = 0
+                while i < len(stmts):
+                    a = stmts[i]
+                    if not (isinstance(a, ast.Assign) and len(
+                            a.targets) == 1 and isinstance(
+                                a.targets[0], ast.Name) and isinstance(
+                                    a.value, ast.Call)):
+                        i += 1
+                        continue
+                    t = a.targets[0].id
+                    names = []
+                    j = i + 1
+                    while j < len(stmts):
+                        b = stmts[j]
+                        if isinstance(b, ast.Assign) and len(
+                                b.targets) == 1 and isinstance(
+                                    b.targets[0], ast.Name) \
+                                and isinstance(b.value, ast.Subscript) \
+                                and isinstance(b.value.value, ast.Name) \
+                                and b.value.value.id == t and isinstance(
+                                    b.value.slice, ast.Constant) \
+                                and b.value.slice.value == len(names):
+                            names.append(b.targets[0].id)
+                            j += 1
+                        else:
+                            break
+                    if len(names) >= 2 and counts.get(t, 0) == len(
+                            names) + 1 and t not in names:
+                        new = ast.Assign(
+                            targets=[ast.Tuple(
+                                elts=[ast.Name(id=n_, ctx=ast.Store())
+                                      for n_ in names], ctx=ast.Store())],
+                            value=a.value)
+                        ast.copy_location(new, a)
+                        ast.fix_missing_locations(new)
+                        stmts[i:j] = [new]
+                    i += 1
+
+
 def _loops_to_comprehensions(tree):
     """`x = []` followed at once by a loop whose whole body is
     `x.append(e)` (possibly under `if c:` without else), or `x = dict()` /
@@ -393,6 +548,10 @@ class ProgramDB(object):
         _inline_return_temps(tree)
         _inline_condition_temps(tree)
         _loops_to_comprehensions(tree)
+        _merge_nested_ifs(tree)
+        _merge_unpack_temps(tree)
+        tree = _FormatToFString().visit(tree)
+        ast.fix_missing_locations(tree)
         _canonical_compares(tree)
         _set_parents(tree)
         relpath = str(path.relative_to(self.repo_root))
